@@ -40,10 +40,16 @@ func RunScript(lines []string, w *bufio.Writer, verbose bool) error {
 			if err := flush(); err != nil {
 				return err
 			}
+			// the scenario marker reaches the trace before the scenario runs, so that a fatal
+			// error of the engine (which kills this process) can be attributed to it
+			fmt.Fprintln(w, "# begin "+l)
+			_ = w.Flush()
 		}
 		cur = append(cur, l)
 	}
-	return flush()
+	err := flush()
+	_ = w.Flush()
+	return err
 }
 
 // ExtraCommand handles the commands added by other files; returns false if unknown.
